@@ -58,6 +58,7 @@ def cases(tier, seed):
 
 
 _struct = None
+_JIT_ID = None
 _counts = {}
 METHODS = ["to_vector", "to_scalar_multi_image", "from_scalar_multi_image", "concat", "concat_inverse", "expand", "combine_axes", "merge_axes", "reshape_pmap", "to_images", "copy", "get_signature", "append"]
 
@@ -172,7 +173,7 @@ def run_chain(case, ctx):
             if msg:
                 viols.append(viol("round-trip-chain", msg, chain=chain))
     except RoundTripError as e:
-        viols.append(viol("round-trip-concat_split", str(e)[:500], chain=chain))
+        viols.append(viol("round-trip-jit-reused" if "jit identity" in str(e) else "round-trip-concat_split", str(e)[:500], chain=chain))
     except Exception as e:
         import traceback
 
@@ -229,7 +230,18 @@ def pick_op(rng, cur):
             return m.copy(), (lambda z: z), True, "copy"
         return op
     if name == "jit":
-        return lambda m: (jax.jit(lambda z: z)(m), (lambda z: z), True, "jit")
+        global _JIT_ID
+        if _JIT_ID is None:
+            _JIT_ID = jax.jit(lambda z: z)  # reused for every state of this process: the jit cache is keyed by the pytree structure
+
+        def op(m):
+            # the same content in reversed storage order goes through the same cached callable first
+            rev = geom.MultiImage({t: m[t] for t in list(m.keys())[::-1]}, m.D, m.is_torus)
+            r = _JIT_ID(rev)
+            if set(r.keys()) != set(m.keys()) or any(not np.array_equal(np.asarray(r[t]), np.asarray(m[t])) for t in m.keys()):
+                raise RoundTripError("jit identity (reused callable) returned a block under another type for the reversed storage order")
+            return _JIT_ID(m), (lambda z: z), True, "jit"
+        return op
     if name == "vmap":
         return lambda m: (jax.vmap(lambda z: z)(m), (lambda z: z), True, "vmap")
     if name == "flatten":
@@ -355,6 +367,25 @@ def run_saveload(case, ctx):
         a, in_sig = make_model(name, eq, D, np.random.default_rng([ctx["seed"], case["i"]]), 11 + case["rep"])
         b, _ = make_model(name, eq, D, np.random.default_rng([ctx["seed"], case["i"]]), 1234 + case["rep"])
         a = mlgen.perturb(a, rng, 0.2)
+        # "same-structured" means the same pytree structure: the template may differ from the saved model in every leaf,
+        # non-array leaves included (normalisation eps stored as a leaf; the inference flag of a wrapper)
+        import equinox as eqx
+        import jax
+
+        variant = ["plain", "template-eps", "wrapped-inference"][case["rep"] % 3 if case["rep"] else (1 if name in ("ConvBlock", "ResNet") else (2 if name == "UNet" else 0))]
+        if variant == "template-eps":
+            def other_eps(path, leaf):
+                names = [getattr(q, "name", None) for q in path]
+                return 1e-2 if (names and names[-1] == "eps" and isinstance(leaf, float)) else leaf
+            b = jax.tree_util.tree_map_with_path(other_eps, b)
+        elif variant == "wrapped-inference":
+            import ginjax.models as models
+            from ..ref import group as rgroup
+
+            ops = [np.asarray(g) for g in rgroup.subgroups(D)["C2d"]]
+            a = eqx.nn.inference_mode(models.GroupAverage(a, ops), value=True)
+            b = models.GroupAverage(b, ops)
+        key["variant"] = variant
         x = mlgen.random_multi(rng, in_sig, D, (4, 4), True)
         ya = a(x)[0]
         yb = b(x)[0]
@@ -373,7 +404,7 @@ def run_saveload(case, ctx):
         viols.append(viol(f"save-load-exception-{type(e).__name__}", f"{type(e).__name__}: {str(e)[:300]}; {traceback.format_exc()[-500:]}"))
     finally:
         shutil.rmtree(tmp, ignore_errors=True)
-    return result(key, viols, True, evals=3, obs={"save_load_round_trips": 1}, hist={"saveload_model": f"{name}/{'eq' if eq else 'conv'}"}, sample={"key": key})
+    return result(key, viols, True, evals=3, obs={"save_load_round_trips": 1}, hist={"saveload_model": f"{name}/{'eq' if eq else 'conv'}", "saveload_variant": key.get("variant", "plain")}, sample={"key": key})
 
 
 def finalize(tier, results, obs, hist, metas):
